@@ -130,7 +130,11 @@ type loopInfo struct {
 	header *ssa.BasicBlock
 	body   map[*ssa.BasicBlock]bool
 	mods   map[string]bool
-	ord    int
+	// roots[h] lists the allocations (outside the loop) through which h is written in the loop;
+	// present only if every write to h in the loop is rooted at such an allocation
+	roots map[string][]ssa.Instruction
+	wild  map[string]bool
+	ord   int
 }
 
 type TV struct {
@@ -590,7 +594,7 @@ func (vc *VC) findLoops() {
 		for _, p := range b.Preds {
 			if b.Dominates(p) {
 				if _, ok := vc.loops[b]; !ok {
-					vc.loops[b] = &loopInfo{header: b, body: map[*ssa.BasicBlock]bool{b: true}, mods: map[string]bool{}}
+					vc.loops[b] = &loopInfo{header: b, body: map[*ssa.BasicBlock]bool{b: true}, mods: map[string]bool{}, roots: map[string][]ssa.Instruction{}, wild: map[string]bool{}}
 					headers = append(headers, b)
 				}
 				// natural loop: nodes reaching p without passing b
@@ -621,8 +625,14 @@ func (vc *VC) findLoops() {
 	for _, li := range vc.loops {
 		for b := range li.body {
 			for _, ins := range b.Instrs {
-				for _, h := range vc.P.instrMods(ins) {
+				root := storeRoot(ins)
+				for _, h := range vc.P.instrMods(ins, func(bb *ssa.BasicBlock) bool { return li.body[bb] }) {
 					li.mods[h] = true
+					if root != nil {
+						li.roots[h] = append(li.roots[h], root)
+					} else {
+						li.wild[h] = true
+					}
 				}
 			}
 		}
@@ -899,7 +909,41 @@ func (vc *VC) loopHeader(b *ssa.BasicBlock, li *loopInfo, entryPreds []*ssa.Basi
 	}
 	sort.Strings(mods)
 	for _, h := range mods {
+		before := ""
+		if _, ok := vc.pre.heapSort[h]; !ok {
+			if s := vc.heapSortByName(h); s != "" {
+				vc.pre.heap(h, s)
+			}
+		}
+		if s, ok := vc.pre.heapSort[h]; ok {
+			before = vc.getH(vc.st, h, s)
+		}
 		vc.havocH(vc.st, h)
+		// writes only through known local allocations: everything else is unchanged
+		if !li.wild[h] && len(li.roots[h]) > 0 && before != "" && strings.HasPrefix(vc.pre.heapSort[h], "(Array Int ") {
+			var ne []string
+			okAll := true
+			for _, r := range li.roots[h] {
+				v, isVal := r.(ssa.Value)
+				if !isVal {
+					okAll = false
+					break
+				}
+				t, have := vc.vals[v]
+				if !have {
+					okAll = false
+					break
+				}
+				if _, isSlice := r.(*ssa.MakeSlice); isSlice {
+					t = "(s_ref " + t + ")"
+				}
+				ne = append(ne, fmt.Sprintf("(not (= r %s))", t))
+			}
+			if okAll {
+				after := vc.getH(vc.st, h, vc.pre.heapSort[h])
+				vc.assume(fmt.Sprintf("(forall ((r Int)) (! (=> (and %s) (= (select %s r) (select %s r))) :pattern ((select %s r))))", strings.Join(ne, " "), after, before, after))
+			}
+		}
 	}
 	for _, ins := range b.Instrs {
 		phi, ok := ins.(*ssa.Phi)
@@ -1019,7 +1063,8 @@ func (vc *VC) instr(ins ssa.Instruction) {
 		case *types.Slice:
 			s := vc.val(ins.X)
 			vc.safety("index out of range: "+ins.X.Name()+"["+ins.Index.Name()+"]", fmt.Sprintf("(and (<= 0 %s) (< %s (s_len %s)))", idx, idx, s))
-			a := &Addr{kind: aElem, ref: fmt.Sprintf("(s_ref %s)", s), idx: fmt.Sprintf("(+ (s_off %s) %s)", s, idx), base: xt.Elem(), typ: xt.Elem(), inter: true}
+			vc.assume(fmt.Sprintf("(= (idx %s %s) (+ (s_off %s) %s))", s, idx, s, idx))
+			a := &Addr{kind: aElem, ref: fmt.Sprintf("(s_ref %s)", s), idx: fmt.Sprintf("(idx %s %s)", s, idx), base: xt.Elem(), typ: xt.Elem(), inter: true}
 			vc.addrs[ins] = a
 			vc.vals[ins] = vc.interiorPtr(a)
 		case *types.Pointer:
@@ -1510,7 +1555,7 @@ func (vc *VC) sliceOp(ins *ssa.Slice) {
 
 func (vc *VC) mapRead(mt *types.Map, m, k string, st *State) (ok, val string) {
 	dn, ds, vn, vs := vc.mapHeaps(mt)
-	ok = fmt.Sprintf("(select (select %s %s) %s)", vc.getH(st, dn, ds), m, k)
+	ok = fmt.Sprintf("(and (not (= %s 0)) (select (select %s %s) %s))", m, vc.getH(st, dn, ds), m, k)
 	val = fmt.Sprintf("(ite %s (select (select %s %s) %s) %s)", ok, vc.getH(st, vn, vs), m, k, vc.pre.zeroOf(mt.Elem()))
 	return
 }
